@@ -135,5 +135,47 @@ theorem readLoop_spec (d : Dev) (devSize start size pss : Nat) (total : Nat) (ac
     readLoop d devSize start size pss total acc = (acc ++ readAt d (start + total) (size - total), size) :=
   readLoop_spec_aux d devSize start size pss hdev hpss (size - total) total acc (Nat.le_refl _) ht
 
+/-- every ReadAt request lies inside the partition, none is longer than the chunk size, and
+    together they cover exactly the bytes that remain -/
+theorem readReqs_spec_aux (devSize start size pss : Nat)
+    (hdev : start + size ≤ devSize) (hpss : 0 < pss) :
+    ∀ (k total : Nat) (acc : List (Nat × Nat)), size - total ≤ k → total ≤ size →
+      ∃ ext : List (Nat × Nat), readReqs devSize start size pss total acc = acc ++ ext ∧
+        (∀ r ∈ ext, start + total ≤ r.1 ∧ r.1 + r.2 ≤ start + size ∧ r.2 ≤ pss) ∧
+        (ext.map (·.2)).sum = size - total := by
+  intro k
+  induction k with
+  | zero =>
+    intro total acc hk ht
+    have h1 : total = size := by omega
+    refine ⟨[(start + total, 0)], ?_, ?_, ?_⟩
+    · unfold readReqs; simp [h1]
+    · intro r hr; simp at hr; subst hr; simp; omega
+    · simp [h1]
+  | succ k ih =>
+    intro total acc hk ht
+    unfold readReqs
+    simp only
+    have hn : min (min pss (size - total)) (devSize - (start + total)) = min pss (size - total) := by omega
+    rw [hn]
+    by_cases hdone : total + min pss (size - total) ≥ size
+    · refine ⟨[(start + total, min pss (size - total))], ?_, ?_, ?_⟩
+      · simp [hdone]
+      · intro r hr; simp at hr; subst hr; simp; omega
+      · simp; omega
+    · have hne : ¬ (min pss (size - total) < min pss (size - total) ∨ total + min pss (size - total) ≥ size ∨ min pss (size - total) = 0) := by
+        omega
+      rw [if_neg hne]
+      obtain ⟨ext, he, hin, hsum⟩ := ih (total + min pss (size - total))
+        (acc ++ [(start + total, min pss (size - total))]) (by omega) (by omega)
+      refine ⟨(start + total, min pss (size - total)) :: ext, ?_, ?_, ?_⟩
+      · rw [he]; simp
+      · intro r hr
+        simp only [List.mem_cons] at hr
+        rcases hr with hr | hr
+        · subst hr; simp; omega
+        · have := hin r hr; omega
+      · simp only [List.map_cons, List.sum_cons, hsum]; omega
+
 end PartIO
 end Diskfs
